@@ -424,16 +424,19 @@ def _silent_before_run(case):
 
 
 def _stale_assign_exposed(case):
-    """a value assigned to an input WHILE it is connected, and that input disconnected later: the uncached twin's
-    next run re-fetches over the assigned value, a run served from the workflow's cache does not"""
-    src, dirty = {}, set()
+    """an input that was assigned by hand (at any time) is connected, a run happens while it is connected (the uncached
+    twin re-fetches over the assigned value; a run served from the workflow's cache runs no child and does not), and
+    the input is disconnected afterwards: from then on the two twins compute from different own values"""
+    src, dirty, ran_dirty = {}, set(), set()
     for op in case["ops"]:
         if op[0] == "connect":
             src[op[1]] = op[2]
-        elif op[0] == "assign" and op[1] in src:
+        elif op[0] == "assign":
             dirty.add(op[1])
+        elif op[0] == "run":
+            ran_dirty |= {i for i in dirty if i in src}
         elif op[0] == "disconnect":
-            if op[1] in dirty and op[1] in src:
+            if op[1] in ran_dirty and op[1] in src:
                 return True
             src.pop(op[1], None)
     return False
